@@ -31,6 +31,7 @@ import Ymq.Lemmas.FIntFft
 import Ymq.Lemmas.FIntRoot
 import Ymq.Lemmas.CrtLemmas
 import Ymq.Lemmas.CrtEstimate
+import Ymq.Lemmas.CrtColumns
 import Ymq.Lemmas.PolyDft
 import Ymq.Lemmas.PolyZMod
 import Ymq.Lemmas.PolyMiddle
@@ -542,6 +543,26 @@ theorem crt_q_estimate (n logsize : Nat) (m : Ymq.Crt.Mzp) (hm : Ymq.Crt.new n l
     (hS : V + q * m.pprod = ∑ i ∈ range m.w, xs.getD i 0 * m.crtP.getD i 0)
     (hV : 2 * V < m.pprod) (hq : q ≤ 25) : Ymq.Crt.qEstimate m xs = some q :=
   Ymq.Crt.qEstimate_spec m (Ymq.Crt.new_estOk n logsize m hm hw2) xs hxs q V hS hV hq
+
+/-- **`MultiZmodP::_crt` (model `Ymq.Crt.crt`), `w ≥ 2` primes**: for the context built by the model of
+`MultiZmodP::new(zn, logsize)` (`n > 0`) and residues `x_j < p_j`, no panic site is reached — every
+`mg_mul64` (C07 `mgMul_spec`; the primes of the translated table are `< 2^59` with Montgomery constant
+`p - 2`), the quotient estimate (`crt_q_estimate`), the index `pprods_modn[q]`, the `u128` column sums
+(never `≥ 2^128`), `assert!(carry == 0)` — the scaled residues `xs_j < p_j`,
+`xs_j·2^64 ≡ x_j·crt_pinv[j] (mod p_j)` exist, and whenever `Σ xs_j·(P/p_j) = V + q·P` with `2V < P`,
+`q < w` (`crt_unique`), the `kw + 1` words written to `res` are exactly
+`pprods_modn[q] + Σ_j xs_j·crt_p_modn[j]` (`crt_value`: congruent to `V` modulo `n`, given
+`pprods_modn[q] ≡ -q·P`, which is compared by `mzp_new` only). -/
+theorem crt_spec (n logsize : Nat) (m : Ymq.Crt.Mzp) (hm : Ymq.Crt.new n logsize = some m) (hn : 0 < n)
+    (hw2 : 2 ≤ m.w) (x : List Nat) (hx : x.length = m.w)
+    (hxr : ∀ j, j < m.w → x.getD j 0 < m.primes.getD j 0) :
+    ∃ xs : List Nat, xs.length = m.w ∧
+      (∀ j, j < m.w → xs.getD j 0 < m.primes.getD j 0 ∧
+        xs.getD j 0 * Ymq.Mg64.W % m.primes.getD j 0 = x.getD j 0 * m.crtPinv.getD j 0 % m.primes.getD j 0) ∧
+      ∀ q V, V + q * m.pprod = ∑ j ∈ range m.w, xs.getD j 0 * m.crtP.getD j 0 → 2 * V < m.pprod → q < m.w →
+        ∃ ws, Ymq.Crt.crt m x = some ws ∧ ws.length = m.kw + 1 ∧
+          Ymq.Crt.valWords ws = m.pprodsModn.getD q 0 + ∑ j ∈ range m.w, xs.getD j 0 * m.crtPModn.getD j 0 :=
+  Ymq.Crt.crt_spec m (Ymq.Crt.new_crtOk n logsize m hm hn hw2) hw2 x hx hxr
 
 /-- non-vacuity: a 61-bit modulus at `logsize = 3` gets three primes -/
 example : (Ymq.Crt.new (2 ^ 61 - 1) 3).map (·.w) = some 3 := by decide +kernel
